@@ -543,12 +543,22 @@ func (w *World) scripted(seam string, ordinal int) *ScriptedFault {
 	return nil
 }
 
-// applyScriptChain runs scripted chain events due after the n-th success.
+// applyScriptChain fires scripted chain events whose position was reached.
 func (w *World) applyScriptChain() {
-	for _, sc := range w.plan.ScriptChain {
-		if sc.AfterOK != w.okOutcomes {
+	for i, sc := range w.plan.ScriptChain {
+		if w.scriptFired[i] {
 			continue
 		}
+		reached := false
+		for _, ps := range w.pairs {
+			if ps.src.plan.Name == sc.Src && ps.maxEverNum >= sc.AtPos {
+				reached = true
+			}
+		}
+		if !reached {
+			continue
+		}
+		w.scriptFired[i] = true
 		switch sc.Action {
 		case "grow":
 			w.chainGrow(sc.Src, sc.N)
